@@ -106,7 +106,8 @@ MUTANTS = {
         m("bool-as-int", B, "    if isinstance(data, int) and not isinstance(data, bool):", "    if isinstance(data, int):", "C14.3"),
         m("len-before-encode", B, "    if isinstance(string, str):\n        string = string.encode()\n    f.write(str(len(string)).encode())", "    f.write(str(len(string)).encode())\n    if isinstance(string, str):\n        string = string.encode()", "C14.2"),
         m("list-tag-collides", B, "_TYPE_LIST = b\"l\"", "_TYPE_LIST = b\"d\"", "C14.1"),
-        m("iterable-before-mapping", B, "    elif isinstance(data, Mapping):\n        _encode_mapping(data, f)\n    elif isinstance(data, Iterable):\n        _encode_iterable(data, f)", "    elif isinstance(data, Iterable):\n        _encode_iterable(data, f)\n    elif isinstance(data, Mapping):\n        _encode_mapping(data, f)", "C14.3"),
+        m("sequence-arm-any-iterable", B, "    elif isinstance(data, (list, tuple)):", "    elif isinstance(data, Iterable):", "C14.3"),
+        m("sequence-arm-abstract-sequence", B, "    elif isinstance(data, (list, tuple)):", "    elif isinstance(data, (list, tuple, set, frozenset)):", "C14.3"),
         m("no-end-marker", B, "    for item in iterable:\n        bencode(item, f)\n    f.write(_TYPE_END)", "    for item in iterable:\n        bencode(item, f)", "C14.2"),
     ],
     "C15": [
